@@ -109,9 +109,13 @@ def generate(seed, tier):
             # never an integer: closed forms with symbolic coefficients have removable singularities at isolated
             # parameter values (a = 1 in geometric sums) where they evaluate to nan - visible, not silently wrong
             tests = [Fraction(5 * rng.randint(-2, 2) + rng.choice([1, 2, 3, 4]), 5), Fraction(7 * rng.randint(0, 1) + rng.choice([1, 2, 3, 4, 5, 6]), 7)]
+        mg = None
+        if len(cases) % 2 == 0 and (meta["data"] or pv):
+            mv = rng.choice(meta["data"] or pv)
+            mg = {"var": mv, "specs": rng.choice([[["c", 2], ["k", 3]], [["c", 4], ["k", 4]], [["c", 3], ["k", 2]], [["c", 4], ["k", 3]]])}
         cases.append({"id": f"gen-{cs}", "text": program_str(p2), "ast": p2.to_json(), "param": param, "param_kind": kind,
                       "inits": K.frac_enc(inits), "goals": goals, "N": 3 if cont else 4, "tests": [[t.numerator, t.denominator] for t in tests],
-                      "features": feats})
+                      "features": feats + (["central-and-cumulant-sensitivity-goals"] if mg else []), **({"moment_goals": mg} if mg else {})})
     return cases
 
 
@@ -136,8 +140,8 @@ def interp_derivative(points, values, at):
     return val, der
 
 
-def oracle_derivatives(prog, param, kind, inits, goals, N, tests, max_states):
-    """table[g][n][t] = d/dp E_n[M] at tests[t]; raises K.OracleSkip"""
+def oracle_derivatives(prog, param, kind, inits, goals, N, tests, max_states, with_values=False):
+    """table[g][n][t] = d/dp E_n[M] at tests[t] (with_values: the pair (E_n[M], d/dp E_n[M])); raises K.OracleSkip"""
     deg = 2
     for attempt in range(4):
         D = deg
@@ -161,7 +165,8 @@ def oracle_derivatives(prog, param, kind, inits, goals, N, tests, max_states):
                 if v != ys[-1]:
                     ok = False
                     break
-                rows.append([interp_derivative(pts[:-1], ys[:-1], t)[1] for t in tests])
+                rows.append([interp_derivative(pts[:-1], ys[:-1], t) if with_values else interp_derivative(pts[:-1], ys[:-1], t)[1]
+                             for t in tests])
             if not ok:
                 break
             table.append(rows)
@@ -169,6 +174,134 @@ def oracle_derivatives(prog, param, kind, inits, goals, N, tests, max_states):
             return table, D
         deg = deg * 2 + 2
     raise K.OracleSkip("oracle-unsupported:moment is not a low-degree polynomial in the parameter")
+
+
+class Dual:
+    """value and derivative with respect to the parameter (exact Fractions)"""
+    __slots__ = ("v", "d")
+
+    def __init__(self, v, d=Fraction(0)):
+        self.v, self.d = Fraction(v), Fraction(d)
+
+    def __add__(self, o):
+        o = o if isinstance(o, Dual) else Dual(o)
+        return Dual(self.v + o.v, self.d + o.d)
+    __radd__ = __add__
+
+    def __sub__(self, o):
+        o = o if isinstance(o, Dual) else Dual(o)
+        return Dual(self.v - o.v, self.d - o.d)
+
+    def __mul__(self, o):
+        o = o if isinstance(o, Dual) else Dual(o)
+        return Dual(self.v * o.v, self.v * o.d + self.d * o.v)
+    __rmul__ = __mul__
+
+    def __pow__(self, k):
+        r = Dual(1)
+        for _ in range(k):
+            r = r * self
+        return r
+
+
+def central_from_raw(k, m):
+    """k-th central moment from raw moments m[1..k] (m[0] = 1)"""
+    from math import comb
+    tot = Dual(0)
+    for j in range(k + 1):
+        tot = tot + (comb(k, j) * (-1) ** (k - j)) * m[j] * (m[1] ** (k - j))
+    return tot
+
+
+def cumulant_from_raw(k, m):
+    """k-th cumulant from raw moments by the standard recursion kappa_n = m_n - sum_{j<n} C(n-1,j-1) kappa_j m_{n-j}"""
+    from math import comb
+    kap = {}
+    for n in range(1, k + 1):
+        acc = m[n]
+        for j in range(1, n):
+            acc = acc - comb(n - 1, j - 1) * kap[j] * m[n - j]
+        kap[n] = acc
+    return kap[k]
+
+
+_XLINE = re.compile(r"^∂(?P<kind>[ck])(?P<k>\d+)\((?P<m>.*?)\) = (?P<rhs>.*)$")
+
+
+def check_central_and_cumulant_sensitivities(case, prog, inits, res, tier):
+    """-sens_diff on central-moment and cumulant goals of one variable: the printed derivative against the exact one"""
+    import sympy
+    param, N = case["param"], min(case["N"], 3)
+    tests = [Fraction(a, b) for a, b in case["tests"]]
+    var_, specs = case["moment_goals"]["var"], case["moment_goals"]["specs"]   # specs: [["c", 4], ["k", 3]]
+    kmax = max(k for _, k in specs)
+    try:
+        table, _ = oracle_derivatives(prog, param, case["param_kind"], inits, [{var_: j} for j in range(1, kmax + 1)], N, tests,
+                                      8000 if tier == "quick" else 40000, with_values=True)
+    except K.OracleSkip as e:
+        res["extra"]["moment-goals-" + e.reason.split(":")[0]] = 1
+        return 0
+    with tempfile.NamedTemporaryFile("w", suffix=".prob", delete=False) as f:
+        f.write(case["text"])
+        path = f.name
+    try:
+        argv = [path, "--goals"] + [f"{kd}{k}({var_})" for kd, k in specs] + ["-sens_diff", param]
+        try:
+            out = P.run_cli(argv)
+            res["events"]["polar.main -sens_diff central/cumulant goals"] = 1
+        except SystemExit:
+            res["refusals"].append("[diff-closed-form central/cumulant] SystemExit")
+            return 0
+        except Exception as e:
+            res["refusals"].append("[diff-closed-form central/cumulant] " + P.refusal_key(e))
+            return 0
+        finally:
+            P.reset_settings()
+    finally:
+        os.unlink(path)
+    nsym = sympy.Symbol("n", integer=True)
+    compared = 0
+    for line in out.splitlines():
+        m = _XLINE.match(line.strip())
+        if not m or "|" in m.group("m"):
+            continue
+        kd, k = m.group("kind"), int(m.group("k"))
+        if [kd, k] not in [list(x) for x in specs]:
+            continue
+        parts = [p_.strip() for p_ in m.group("rhs").split(";")]
+        try:
+            specials = [sympy.sympify(p_, locals={"n": nsym}) for p_ in parts[:-1]]
+            formula = sympy.sympify(parts[-1], locals={"n": nsym})
+        except Exception:
+            res["violations"].append({"kind": "unparseable-sensitivity-line", "key": None, "method": "diff-closed-form", "detail": line[:300]})
+            continue
+        bad = None
+        for ti, t in enumerate(tests):
+            values = K.symbol_values({param: t}, inits)
+            for n in range(N + 1):
+                raw = {0: Dual(1)}
+                for j in range(1, k + 1):
+                    v_, d_ = table[j - 1][n][ti]
+                    raw[j] = Dual(v_, d_)
+                ref = (central_from_raw(k, raw) if kd == "c" else cumulant_from_raw(k, raw)).d
+                ex = specials[n] if n < len(specials) else formula
+                try:
+                    pv = P.eval_at(ex, n, values)
+                except (P.Leftover, P.NotANumber) as e:
+                    bad = {"kind": "sensitivity-not-a-number", "detail": f"[diff-closed-form] ∂{kd}{k}({var_})/∂{param} at n={n}, {param}={t}: {e}"}
+                    break
+                res["comparisons"] += 1
+                if not P.values_equal(pv, ref):
+                    bad = {"kind": "wrong-sensitivity", "n": n,
+                           "detail": f"[diff-closed-form] ∂{kd}{k}({var_})/∂{param} at n={n}, {param}={t}: polar={P.val_str(pv)} exact derivative={P.val_str(ref)}; printed: {str(formula)[:200]}"}
+                    break
+            if bad:
+                break
+        compared += 1
+        if bad:
+            bad.update(method="diff-closed-form", goal=f"{kd}{k}({var_})", key=None)
+            res["violations"].append(bad)
+    return compared
 
 
 _DLINE = re.compile(r"^∂E\((?P<m>.*?)\) = (?P<rhs>.*)$")
@@ -267,6 +400,13 @@ def run_case(case, tier):
                 res["violations"].append(bad)
         if len(sample) < 2 and vals_by_method:
             sample.append({"goal": key, "methods_compared": sorted(vals_by_method), "exact_derivative_at_n": [str(r[0]) for r in table[gi]]})
+    if case.get("moment_goals"):
+        try:
+            with K.soft_timeout(TIMEOUT[tier] * 0.35):
+                compared += check_central_and_cumulant_sensitivities(case, prog, inits, res, tier)
+        except K.SoftTimeout:
+            res["extra"]["moment-goals-time-box"] = 1
+            P.reset_settings()
     if compared == 0 and not res["violations"]:
         res.update(verdict="inconclusive", reason="refused")
         return res
